@@ -339,3 +339,58 @@ func HarnessC14Faults() {
 		zz.Assert("current-revision-active-after-retry", curRev.active)
 	}
 }
+
+// HarnessC14PreviousIncarnation: the package was deleted and created again
+// under its name; a revision of the previous incarnation is still there -
+// labelled with the package's name, controlled by the old package's UID,
+// Active or not - and the new package's source resolves to another digest.
+// Whatever the reconciles (two of them) make of that revision, at no instant
+// are two revisions that carry the package's label Active.
+//
+//gosym:harness
+//gosym:cover old-revision-active old-revision-inactive
+func HarnessC14PreviousIncarnation() {
+	zzPkgName = "provider-x"
+	s := kube.New()
+	s.Register(&v1.Provider{}, &v1.ProviderList{}, zzPkgGroup, "Provider")
+	s.Register(&v1.ProviderRevision{}, &v1.ProviderRevisionList{}, zzPkgGroup, "ProviderRevision")
+	p := &v1.Provider{ObjectMeta: metav1.ObjectMeta{Name: zzPkgName, UID: zzPkgUID}}
+	p.Spec.Package = "xpkg.example.org/org/provider-x:v1.0.0"
+	if zz.Bool("manualActivation") {
+		p.Spec.RevisionActivationPolicy = ptr.To(v1.ManualActivation)
+	}
+	s.Put(p)
+	old := &v1.ProviderRevision{ObjectMeta: metav1.ObjectMeta{
+		Name:   zzRevNames[0],
+		Labels: map[string]string{v1.LabelParentPackage: zzPkgName},
+		OwnerReferences: []metav1.OwnerReference{{
+			APIVersion: v1.SchemeGroupVersion.String(), Kind: "Provider", Name: zzPkgName, UID: "uid-of-the-deleted-package",
+			Controller: ptr.To(true), BlockOwnerDeletion: ptr.To(true),
+		}},
+	}}
+	old.Spec.Revision = 1 + zz.Int64("old.number")
+	zz.Assume(old.Spec.Revision >= 1)
+	zz.Assume(old.Spec.Revision < 1<<40)
+	old.Spec.Package = "xpkg.example.org/org/provider-x:v0.9.0"
+	old.Spec.DesiredState = v1.PackageRevisionInactive
+	if zz.Bool("old.active") {
+		zz.Cover("old-revision-active")
+		old.Spec.DesiredState = v1.PackageRevisionActive
+	} else {
+		zz.Cover("old-revision-inactive")
+	}
+	s.Put(old)
+
+	s.OnMutate = zzAtMostOneActive(s)
+	r := zzReconciler(s, zzNewRev)
+	for k := 0; k < 2; k++ {
+		_, _ = r.Reconcile(context.Background(), reconcile.Request{NamespacedName: types.NamespacedName{Name: zzPkgName}})
+	}
+	n := 0
+	for _, rv := range zzStoredRevisions(s) {
+		if rv.active {
+			n++
+		}
+	}
+	zz.Assert("at-most-one-active-at-the-end", n <= 1)
+}
